@@ -16,6 +16,7 @@
      m 1       the word is used up, or nothing applies and the state has an any-rest transition
      leave     with m = 0 only if an iteration says "stop" or nothing applies and there is no any-rest transition
      fl 0      the words before the cursor are used up, or the `break 3` exit applies (last word, a command does not list it)
+     fl v+1    only while `matches` is still empty (the first `||` level that has any candidate wins); nm only grows
      end       status 1 only where the emitted text returns 1
    Cases: [id, vm, traces: << [words, prefix, rc, ev: << [e, v] >>] >>].  A trace that is not a behaviour is MODEL-DRIFT (the
    model misrepresents the script's steps), never a verdict on complgen. *)
@@ -24,8 +25,8 @@ EXTENDS BashVM, Json, IOUtils
 Cases == ndJsonDeserialize(IOEnv.CASES)
 N == Len(Cases)
 
-VARIABLES case, ti, l, pc, phase, st, wi, sid, ss, ci, m, mode, pend, inv, fl
-vars == <<case, ti, l, pc, phase, st, wi, sid, ss, ci, m, mode, pend, inv, fl>>
+VARIABLES case, ti, l, pc, phase, st, wi, sid, ss, ci, m, mode, pend, inv, fl, nm
+vars == <<case, ti, l, pc, phase, st, wi, sid, ss, ci, m, mode, pend, inv, fl, nm>>
 
 T == Cases[case].traces[ti]
 V == Cases[case].vm
@@ -39,7 +40,7 @@ Consume == l' = l + 1
 
 Init == \E c \in 1..N : \E i \in 1..Len(Cases[c].traces) :
           /\ case = c /\ ti = i /\ l = 1 /\ pc = "top" /\ phase = "match"
-          /\ st = -1 /\ wi = -1 /\ sid = 0 /\ ss = -1 /\ ci = -1 /\ m = -1 /\ mode = "-" /\ pend = 0 /\ inv = <<>> /\ fl = -1
+          /\ st = -1 /\ wi = -1 /\ sid = 0 /\ ss = -1 /\ ci = -1 /\ m = -1 /\ mode = "-" /\ pend = 0 /\ inv = <<>> /\ fl = -1 /\ nm = 0
 
 \* ---- the completion function, words before the cursor
 Lits(w) == { i \in 1..Len(V.lits) : V.lits[i] = w /\ LitTr(V, st, i) # {} }
@@ -66,21 +67,21 @@ Return1 == phase = "match" /\ pc = "top" /\ wi \in 1..NW /\ Lits(T.words[wi]) = 
 E_st == /\ Is("st") /\ pc = "top" /\ phase = "match"
         /\ IF st = -1 THEN Val = V.start /\ pc' = "top" /\ UNCHANGED inv
            ELSE wi \in 1..NW /\ Val # st /\ Val \in Targets(T.words[wi]) /\ pc' = "incw" /\ UNCHANGED inv
-        /\ st' = Val /\ Consume /\ UNCHANGED <<case, ti, phase, wi, sid, ss, ci, m, mode, pend, fl>>
+        /\ st' = Val /\ Consume /\ UNCHANGED <<case, ti, nm, phase, wi, sid, ss, ci, m, mode, pend, fl>>
 E_wi == /\ Is("wi") /\ phase = "match"
         /\ \/ wi = -1 /\ st # -1 /\ pc = "top" /\ Val = 1
            \/ pc = "incw" /\ Val = wi + 1
            \/ pc = "top" /\ wi \in 1..NW /\ st \in Targets(T.words[wi]) /\ Val = wi + 1      \* `state` was assigned its own value
-        /\ wi' = Val /\ pc' = "top" /\ inv' = <<>> /\ Consume /\ UNCHANGED <<case, ti, phase, st, sid, ss, ci, m, mode, pend, fl>>
+        /\ wi' = Val /\ pc' = "top" /\ inv' = <<>> /\ Consume /\ UNCHANGED <<case, ti, nm, phase, st, sid, ss, ci, m, mode, pend, fl>>
 
 \* ---- the within-word function
 SubOfLevel(n) == \E t \in SubsAt : V.tr[t].l.sub = n /\ (phase = "match" \/ V.tr[t].l.lv = fl)
 E_enter == /\ Is("enter") /\ pc = "top" /\ Val \in 1..Len(V.subs) /\ SubOfLevel(Val)
            /\ IF phase = "match" THEN wi \in 1..NW /\ Lits(T.words[wi]) = {} /\ AllNo /\ Val \notin Invoked ELSE fl >= 0
            /\ sid' = Val /\ pc' = "subinit" /\ ss' = -1 /\ ci' = -1 /\ m' = -1 /\ mode' = "-" /\ Consume
-           /\ UNCHANGED <<case, ti, phase, st, wi, pend, inv, fl>>
+           /\ UNCHANGED <<case, ti, nm, phase, st, wi, pend, inv, fl>>
 E_mode == /\ Is("mode") /\ pc = "subinit" /\ mode = "-" /\ Val = (IF phase = "match" THEN "matches" ELSE "complete")
-          /\ mode' = Val /\ Consume /\ UNCHANGED <<case, ti, pc, phase, st, wi, sid, ss, ci, m, pend, inv, fl>>
+          /\ mode' = Val /\ Consume /\ UNCHANGED <<case, ti, nm, pc, phase, st, wi, sid, ss, ci, m, pend, inv, fl>>
 \* one iteration of `while true` from (ss, ci): the possible results
 Iter == LET lp == LitPass(A, Word, ss, ci, 1, 0) IN
         IF lp.r \in {"stop", "go"} THEN {lp}
@@ -95,18 +96,18 @@ E_ss == /\ Is("ss") /\ mode # "-"
         /\ \/ pc = "subinit" /\ ss = -1 /\ Val = A.start /\ pc' = "subinit" /\ pend' = pend
            \/ pc = "subloop" /\ ~Used /\ Val # ss /\ LitGo.r = "go" /\ LitGo.go = Val /\ pend' = LitGo.n /\ pc' = "incc"
            \/ pc = "setss" /\ Val = pend /\ Val # ss /\ pc' = "subloop" /\ pend' = 0
-        /\ ss' = Val /\ Consume /\ UNCHANGED <<case, ti, phase, st, wi, sid, ci, m, mode, inv, fl>>
+        /\ ss' = Val /\ Consume /\ UNCHANGED <<case, ti, nm, phase, st, wi, sid, ci, m, mode, inv, fl>>
 E_ci == /\ Is("ci") /\ mode # "-"
         /\ \/ pc = "subinit" /\ ss # -1 /\ ci = -1 /\ Val = 0 /\ pc' = "subinit" /\ pend' = pend
            \/ pc = "incc" /\ Val = ci + pend /\ pc' = "subloop" /\ pend' = 0
            \/ pc = "subloop" /\ ~Used /\ LitGo.r = "go" /\ LitGo.go = ss /\ Val = ci + LitGo.n /\ pc' = "subloop" /\ pend' = 0   \* `subword_state` keeps its value
            \/ pc = "subloop" /\ ~Used /\ \E r \in CmdGo : Val = ci + r.n /\ pend' = r.go /\ pc' = (IF r.go = ss THEN "subloop" ELSE "setss")
         /\ ci' = Val /\ Consume
-        /\ UNCHANGED <<case, ti, phase, st, wi, sid, ss, m, mode, inv, fl>>
+        /\ UNCHANGED <<case, ti, nm, phase, st, wi, sid, ss, m, mode, inv, fl>>
 E_m == /\ Is("m") /\ mode # "-"
        /\ \/ pc = "subinit" /\ ci = 0 /\ m = -1 /\ Val = 0 /\ pc' = "subloop"
           \/ pc = "subloop" /\ m = 0 /\ Val = 1 /\ (Used \/ (Iter = {R_NONE} /\ KindTr(A, ss, "star") # {})) /\ pc' = "subdone"
-       /\ m' = Val /\ Consume /\ UNCHANGED <<case, ti, phase, st, wi, sid, ss, ci, mode, pend, inv, fl>>
+       /\ m' = Val /\ Consume /\ UNCHANGED <<case, ti, nm, phase, st, wi, sid, ss, ci, mode, pend, inv, fl>>
 \* leaving the matching loop without `matched=1`: an iteration says stop, or nothing applies and there is no any-rest transition
 Stops == ~Used /\ ((\E r \in Iter : r.r = "stop") \/ (Iter = {R_NONE} /\ KindTr(A, ss, "star") = {}))
 E_leave == /\ Is("leave") /\ pc \in {"subloop", "subdone", "subcomplete"}
@@ -114,22 +115,23 @@ E_leave == /\ Is("leave") /\ pc \in {"subloop", "subdone", "subcomplete"}
            /\ (phase = "match" => pc \in {"subloop", "subdone"})
            /\ inv' = IF phase = "match" THEN Append(inv, [sid |-> sid, m |-> m]) ELSE inv
            /\ pc' = "top" /\ sid' = 0 /\ ss' = -1 /\ ci' = -1 /\ m' = -1 /\ mode' = "-" /\ Consume
-           /\ UNCHANGED <<case, ti, phase, st, wi, pend, fl>>
+           /\ UNCHANGED <<case, ti, nm, phase, st, wi, pend, fl>>
 \* the completion part of the within-word function (mode complete): levels and matches are reported, not re-derived here
 \* (`subword_fallback_level` is not declared local by the emitted text: it keeps its value from one within-word function to the
 \* next, so its first assignment in a function may go unreported; the matching part is over when either event arrives)
 SubMatchingOver == pc \in {"subdone", "subcomplete"} \/ (pc = "subloop" /\ m = 0 /\ Stops)
 E_sfl == /\ Is("sfl") /\ phase = "complete" /\ SubMatchingOver
-         /\ pc' = "subcomplete" /\ Consume /\ UNCHANGED <<case, ti, phase, st, wi, sid, ss, ci, m, mode, pend, inv, fl>>
-E_nm == /\ Is("nm") /\ phase = "complete" /\ (pc = "top" \/ SubMatchingOver)
-        /\ pc' = (IF pc = "top" THEN "top" ELSE "subcomplete")
+         /\ pc' = "subcomplete" /\ Consume /\ UNCHANGED <<case, ti, nm, phase, st, wi, sid, ss, ci, m, mode, pend, inv, fl>>
+\* `matches` only grows
+E_nm == /\ Is("nm") /\ phase = "complete" /\ (pc = "top" \/ SubMatchingOver) /\ Val > nm
+        /\ pc' = (IF pc = "top" THEN "top" ELSE "subcomplete") /\ nm' = Val
         /\ Consume /\ UNCHANGED <<case, ti, phase, st, wi, sid, ss, ci, m, mode, pend, inv, fl>>
 
 \* ---- the completion part of the completion function
 E_fl == /\ Is("fl") /\ pc = "top"
         /\ \/ phase = "match" /\ Val = 0 /\ (wi = NW + 1 \/ Break3)
-           \/ phase = "complete" /\ Val = fl + 1
-        /\ phase' = "complete" /\ fl' = Val /\ Consume /\ UNCHANGED <<case, ti, pc, st, wi, sid, ss, ci, m, mode, pend, inv>>
+           \/ phase = "complete" /\ Val = fl + 1 /\ nm = 0        \* the next `||` level is consulted only while nothing matched
+        /\ phase' = "complete" /\ fl' = Val /\ Consume /\ UNCHANGED <<case, ti, nm, pc, st, wi, sid, ss, ci, m, mode, pend, inv>>
 
 Next == E_st \/ E_wi \/ E_enter \/ E_mode \/ E_ss \/ E_ci \/ E_m \/ E_leave \/ E_sfl \/ E_nm \/ E_fl
 
